@@ -107,6 +107,20 @@ func (m *Mast) Delete(ctx context.Context, key, value interface{}) error {
 	if err != nil {
 		return err
 	}
+	// A delete that may shrink the tree works on private copies of the path:
+	// the shrink loads nodes and can fail, and then the tree is restored.
+	var undo *Mast
+	if m.height > 0 && (m.size-1 <= m.shrinkBelowSize || len(options.path[0].node.Key) <= 1) {
+		saved := *m
+		undo = &saved
+		for j := range options.path {
+			private := options.path[j].node.xcopy()
+			private.dirty = false
+			private.shared = false
+			options.path[j].node = private
+		}
+		node = options.path[len(options.path)-1].node
+	}
 	node, err = deleteEntry(ctx, m, node, i)
 	if err != nil {
 		return err
@@ -122,6 +136,9 @@ func (m *Mast) Delete(ctx context.Context, key, value interface{}) error {
 	for m.height > 0 && (m.size <= m.shrinkBelowSize || m.rootHasNoKeys()) {
 		err = m.shrink(ctx)
 		if err != nil {
+			if undo != nil {
+				*m = *undo
+			}
 			return fmt.Errorf("shrink: %w", err)
 		}
 	}
